@@ -8,7 +8,9 @@ COMMON_NOTE = ("Trusted base: CPython's ast parser; the /verif/sa engine (progra
                "over-/under-approximate call graphs, statement CFGs with exceptional edges, must-facts guard analysis); the seed names of the "
                "mechanisms (an absent seed or a rule that finds fewer instances than confirmed on the pinned tree exits 2, never 0). Assumes "
                "application overrides of the extension points do not touch engine state and that reflection is limited to the getattr/setattr "
-               "forms present today. Decides structural necessary conditions of the property, not the behaviour as a whole.")
+               "forms present today. Decides structural necessary conditions of the property, not the behaviour as a whole. Every check also "
+               "decides definite assignment (no read of an unassigned / unbound local) in the functions its rules anchor in. The full rule list "
+               "with today's instance counts is /verif/RULES.md; which independently written regressions each check reports is /verif/seeded/MATRIX.md.")
 
 CLAIMS = {
  "C15": ("lock-set analysis over receiver-typed call graph",
@@ -97,18 +99,23 @@ CLAIMS = {
  "C05": ("call-site inventory + handler structure + guard facts + side-typing",
          "Decides: one resolver call site outside loops; temporary errors propagate, others and malformed answers fall back to remote-wins/keep; "
          "identical content returns before the resolver and is compared within one side's hash space; conflict handling only on hash_conflict(); "
-         "handles use their own side's provider and a temp file keyed to current content; not keep = upload over the loser, keep = rename. Final "
-         "contents are not decided.", "4 C05"),
+         "handles use their own side's provider and a temp file keyed to current content; not keep = upload over the loser, keep = rename; every "
+         "answer of the resolver - falsy garbage included - passes the shape checks or becomes the remote-wins default on every feasible path; the "
+         "handle is rewound before every upload and a length query restores the read position. Final contents are not decided.", "4 C05"),
  "C14": ("MUSTCALL summaries / CFG cut queries on the refresh-before-act discipline",
          "Decides: sync() is reachable in a step only after get_latest(); change stamps strictly increase; id-less events never touch the state; "
          "the no-information arm stores only TRASHED/MISSING, confirms a tombstone for every provider style and never leads to EXISTS; the "
-         "freshness marker has four writers; unchanged walk events are the only dedupe. Equality of outcomes under duplication / reordering is "
-         "not decided.", "4 C14"),
+         "freshness marker has four writers; unchanged walk events are the only dedupe (exact comparison); every field of an event is written "
+         "through to the event's side only (parameter->field table with exact guards), every field of a refresh answer likewise, the refresh "
+         "bypasses the provider cache, its stamp is stored only after it returned, a found object is marked EXISTS on every path, a parent the "
+         "provider reports is recorded unconditionally. Equality of outcomes under duplication / reordering is not decided.", "4 C14"),
  "C01": ("response-protocol exhaustiveness + CFG queries",
          "Convergence itself is behavioural and not decided. Decided are book-keeping conditions without which the engine cannot go quiet or make "
          "progress: FINISHED/PUNT are dispatched; every protocol function returns FINISHED/PUNT/REQUEUE on every path; finishing clears flag and "
          "pending set; every event source feeds _process_event whose only drops are the three enumerated ones; REQUEUE is preceded by a priority "
-         "change.", "4 C01"),
+         "change; a side's turn in sync() ends early only when it needs no sync, after finished(), or because the other side is pending; the "
+         "ancestor walk climbs; a renamed folder re-bases its children's synced paths; event fields reach the state; change stamps strictly "
+         "increase; critical sections and retry temp names as in C15/C10.", "4 C01"),
  "C13": ("guard facts on is_subpath + kernel form of paths_match + side-typing of translate",
          "The value-level path laws (for all strings) are not decided. Decided are the structural slips the property names: component-boundary "
          "test and symmetric case fold in is_subpath, relative part cut from the un-folded target, paths_match as the kernel of one normalisation, "
